@@ -19,7 +19,7 @@ From SCC Require Import Base.Sexp Lang.AxSyn Sem.AxSem Model.Backend Model.A64 S
      Proof.A64State Proof.A64ImmHw Proof.A64Imm Proof.A64Sel Proof.A64Exec Proof.A64MemSubst Proof.A64Mem Proof.A64MemOps
      Proof.A64MemLoad.
 From SCC Require Model.Heap Model.X86 Sem.X86Sem Proof.X86Mem Proof.X86MemFrame Proof.X86MemStore Proof.X86MemStoreChain
-     Proof.X86MemLoad Proof.X86MemLoadChain Proof.X86MemLoadFull Proof.X86HeapDefs.
+     Proof.X86MemLoad Proof.X86MemLoadChain Proof.X86MemLoadFull Proof.X86HeapDefs Proof.HeapMore Proof.A64MemTop.
 Import ListNotations.
 Open Scope list_scope.
 Open Scope Z_scope.
@@ -716,4 +716,135 @@ Qed.
 End LoadFull.
 
 Print Assumptions a64_load_full.
+
+(* ====================================================================================== *)
+(* the one-block case in the shape of `x86_load_one_block_ok` (C09_x86_load_one_block): a_load of 1..3 variables
+   = `Heap.load p` *)
+Definition load_pre (s : astate) (p : Z) (E : nat) (to_load : list binding) : Prop :=
+  let n := List.length to_load in
+  (forall j, (j < 3)%N -> hword s (p + field_offset Fst j) = 0 \/ is_blk (hword s (p + field_offset Fst j))) /\
+  (forall j, (j < 3 - N.of_nat n)%N -> hword s (p + field_offset Fst j) = 0) /\
+  (forall i b, nth_error to_load i = Some b -> bchi b = Ext -> hword s (p + field_offset Fst (3 - N.of_nat n + N.of_nat i)) = 0) /\
+  (forall x, is_blk x -> min_int + 1 <= hword s x <= max_int - 3).
+
+Lemma load_object_0 p a : Heap.load_object 0 p a = Heap.load p a.
+Proof.
+  unfold Heap.load_object, Heap.load, Heap.load_object_share, Heap.load_share. cbn [Heap.load_object_release Heap.share_walk].
+  now rewrite HeapMore.dec_ps.
+Qed.
+Lemma lf_ptr_nil w p bp : forall fuel, lf_ptr fuel w [] bp p = p.
+Proof. destruct fuel; reflexivity. Qed.
+
+Theorem a64_load_one_block_ok im pos to_load existing lc cs lc' s sp p h F :
+  a_load to_load existing lc = Ok (cs, lc') -> (1 <= List.length to_load <= 3)%nat ->
+  code_at im pos cs -> labels_at im pos cs -> frame_ok s sp ->
+  lget s sp (tpos (2 * N.of_nat (List.length existing))) = Some p -> is_blk p -> rget s HEAP = Some h ->
+  load_pre s p (List.length existing) to_load ->
+  exists s', exec_to im pos s (padd pos (List.length cs)) s' /\
+    st_eqB (abs_heap F s') (Heap.load p (abs_heap F s)) /\
+    (forall i b, nth_error to_load i = Some b ->
+       lget s' sp (tpos (2 * N.of_nat (List.length existing + i) + 1)) =
+         Some (hword s (p + field_offset Snd (3 - N.of_nat (List.length to_load) + N.of_nat i))) /\
+       (bchi b <> AxSyn.Ext -> lget s' sp (tpos (2 * N.of_nat (List.length existing + i))) =
+         Some (hword s (p + field_offset Fst (3 - N.of_nat (List.length to_load) + N.of_nat i))))) /\
+    (forall k, (k < 2 * N.of_nat (List.length existing))%N -> lget s' sp (tpos k) = lget s sp (tpos k)) /\
+    out s' = out s /\ frame_ok s' sp.
+Proof.
+  intros Hx Hlen HC HL FR P Hb Hh (Kall & Kz & Ke & Room).
+  set (n := List.length to_load) in *.
+  assert (Hne : to_load <> []) by (intros ->; cbn in Hlen; lia).
+  assert (Hrl : rest_len n 3 = 0%nat) by (rewrite X86MemStoreChain.rest_len_val; lia).
+  assert (Hnl : Heap.nlinks n = 0%nat) by (unfold Heap.nlinks; destruct (Nat.leb_spec n 3); [reflexivity|lia]).
+  assert (EA : lf_addrs (S n) (hword s) to_load XLast p = [p + 16; p + 32; p + 48]).
+  { destruct to_load as [|x r]; [contradiction|]. cbn [X86MemLoadChain.lf_addrs]. change (3 - X86.bp_n XLast)%N with 3%N.
+    fold n. rewrite Hrl. cbn [firstn]. rewrite lf_ptr_nil, X86MemLoadFull.lf_addrs_nil. reflexivity. }
+  destruct (a64_load_full im pos to_load existing lc cs lc' s sp p h F Hx Hne HC HL FR P Hb Hh)
+    as (s' & ST & EQ & V & O & Out & FR' & _).
+  - destruct to_load as [|x r]; [contradiction|]. cbn [X86MemLoadChain.lf_share_ok]. change (3 - X86.bp_n XLast)%N with 3%N.
+    fold n. rewrite Hrl. cbn [firstn skipn]. rewrite lf_ptr_nil. fo. fold n.
+    split; [apply X86MemLoadFull.lf_share_ok_nil|]. split; [exact Hb|]. split; [exact Kall|]. split; [exact Kz|exact Ke].
+  - intros x Hx'. destruct (Room x Hx'). fold n. lia.
+  - fold n in EQ, V. rewrite Hnl, load_object_0 in EQ. rewrite EA in V.
+    exists s'. split; [exact ST|]. split; [exact EQ|]. split; [|auto].
+    intros i b Hi. destruct (V i b Hi) as [VS VF]. cbn [List.length] in VS, VF.
+    assert (Hi' : (i < n)%nat) by (apply nth_error_Some; congruence).
+    set (j := (3 - N.of_nat n + N.of_nat i)%N).
+    assert (Ej : nth (3 - n + i) [p + 16; p + 32; p + 48] 0 = p + field_offset Fst j).
+    { pose proof (X86MemLoadChain.blk_addrs_nth p 3 j ltac:(auto) ltac:(unfold j; lia)) as BN. fo.
+      rewrite <- BN. unfold X86MemLoadChain.blk_addrs. cbn [N.eqb Pos.eqb]. f_equal. unfold j. lia. }
+    rewrite Ej in VS, VF.
+    replace (p + field_offset Fst j + 8) with (p + field_offset Snd j) in VS by (rewrite !field_offset_val; cbn [tnum_n]; lia).
+    auto.
+Qed.
+Print Assumptions a64_load_one_block_ok.
+
+(* ---------- the hypotheses are satisfiable: a shared two-block object with five fields loaded behind 13 variables
+   (positions 0..25 = all registers X4..X29), so its pointer, both block pointers and all loaded variables sit in
+   spill slots; TEMPORARY_TEMP = X10 (the first temporary of variable 3) is evacuated and restored ---------- *)
+Definition ex_sp : Z := STACK_TOP - 4096.
+Definition ex13_existing : ctx :=
+  map (fun i => mkb ("v"%string, i) Ext I64) [0; 1; 2; 3; 4; 5; 6; 7; 8; 9; 10; 11; 12]%N.
+Definition ex13_state : astate :=
+  let r := rset (rset (rset (rset (init_state []) SP (Some ex_sp)) HEAP (Some (HEAP_BASE + 192))) FREE (Some (HEAP_BASE + 256))) (X 10) (Some 777) in
+  let st := sset r ex_sp 1 (Some HEAP_BASE) in
+  fold_left (fun s (az : Z * Z) => hset s (HEAP_BASE + fst az) (snd az))
+            [(0, 1); (24, 11); (32, HEAP_BASE + 128); (40, 22); (48, HEAP_BASE + 64); (64 + 24, 33); (64 + 40, 44); (64 + 56, 55)] st.
+Definition ex13_code : list acode := match a_load X86MemStoreChain.ex5_store ex13_existing 0 with Ok (cs, _) => cs | Err _ => [] end.
+
+Example a64_load_example :
+  exists lc', a_load X86MemStoreChain.ex5_store ex13_existing 0 = Ok (ex13_code, lc') /\
+  hword ex13_state HEAP_BASE = 1 /\ rget ex13_state TEMPORARY_TEMP = Some 777 /\
+  exists s', exec_to (mk_image ex13_code) 1 ex13_state (padd 1 (List.length ex13_code)) s' /\
+     st_eqB (abs_heap (HEAP_BASE + 256) s') (Heap.load_object 1 HEAP_BASE (abs_heap (HEAP_BASE + 256) ex13_state)) /\
+     sget s' ex_sp 2 = Some 11 /\ sget s' ex_sp 3 = Some (HEAP_BASE + 128) /\ sget s' ex_sp 10 = Some 55 /\
+     rget s' TEMPORARY_TEMP = Some 777.
+Proof.
+  assert (Hx : exists lc', a_load X86MemStoreChain.ex5_store ex13_existing 0 = Ok (ex13_code, lc')) by (eexists; vm_compute; reflexivity).
+  destruct Hx as [lc' Hx]. exists lc'. split; [exact Hx|]. split; [vm_compute; reflexivity|]. split; [vm_compute; reflexivity|].
+  destruct (A64MemTop.mk_image_code_labels ex13_code) as [HC HL]; [apply X86MemStore.nodupb_sound; vm_compute; reflexivity|].
+  assert (Bk : forall k, 0 <= k <= 4 -> is_blk (HEAP_BASE + 64 * k)).
+  { intros k Hk. exists k. split; [lia|]. split; [reflexivity|]. unfb. lia. }
+  assert (W : forall o, hword ex13_state (HEAP_BASE + o) =
+     if o =? 120 then 55 else if o =? 104 then 44 else if o =? 88 then 33 else if o =? 48 then HEAP_BASE + 64 else
+     if o =? 40 then 22 else if o =? 32 then HEAP_BASE + 128 else if o =? 24 then 11 else if o =? 0 then 1 else 0).
+  { intros o. unfold ex13_state. cbn [fold_left fst snd]. rewrite !hword_hset by (vm_compute; reflexivity).
+    rewrite hword_sset, !hword_rset. replace (hword (init_state []) (HEAP_BASE + o)) with 0 by (unfold hword, hget, init_state; cbn [heap]; now rewrite PM.gempty).
+    unfold HEAP_BASE.
+    repeat match goal with |- context [?a =? ?b] => destruct (Z.eqb_spec a b); try lia end; reflexivity. }
+  destruct (a64_load_full (mk_image ex13_code) 1 X86MemStoreChain.ex5_store ex13_existing 0 ex13_code lc' ex13_state ex_sp HEAP_BASE (HEAP_BASE + 192) (HEAP_BASE + 256) Hx ltac:(discriminate) HC HL)
+    as (s' & ST & EQ & V & O & _).
+  - split; [vm_compute; reflexivity|]. repeat split; vm_compute; easy.
+  - vm_compute; reflexivity.
+  - exact (Bk 0 ltac:(lia)).
+  - vm_compute; reflexivity.
+  - unfold X86MemStoreChain.ex5_store. cbn [X86MemLoadChain.lf_share_ok List.length]. change (3 - X86.bp_n X86.Last)%N with 3%N. change (3 - X86.bp_n X86.Other)%N with 2%N.
+    change (rest_len 5 3) with 2%nat. cbn [firstn skipn List.length]. change (rest_len 2 2) with 0%nat. cbn [firstn skipn List.length X86MemLoadChain.lf_ptr].
+    change (rest_len 2 (3 - X86.bp_n X86.Other)) with 0%nat. cbn [firstn X86MemLoadChain.lf_ptr]. fo.
+    replace (hword ex13_state (HEAP_BASE + 48)) with (HEAP_BASE + 64 * 1) by (rewrite W; reflexivity).
+    split; [split; [exact I|]|].
+    + split; [exact (Bk 0 ltac:(lia))|]. split; [|split].
+      * intros j Hj. assert (Hc : (j = 0 \/ j = 1)%N) by lia. destruct Hc as [-> | ->]; rewrite ?fo_F0, ?fo_F1, W; cbn; auto.
+        right. exact (Bk 2 ltac:(lia)).
+      * intros j Hj. cbn in Hj. lia.
+      * intros i b Hi Hb. destruct i as [|[|i]]; cbn in Hi; try (destruct i; discriminate); inversion Hi; subst b; cbn in Hb; try discriminate.
+        change (hword ex13_state (HEAP_BASE + 16) = 0). rewrite W. reflexivity.
+    + split; [exact (Bk 1 ltac:(lia))|]. split; [|split].
+      * intros j Hj. assert (Hc : (j = 0 \/ j = 1 \/ j = 2)%N) by lia.
+        destruct Hc as [->|[->| ->]]; rewrite ?fo_F0, ?fo_F1, ?fo_F2, <- Z.add_assoc, W; cbn; auto.
+      * intros j Hj. cbn in Hj. lia.
+      * intros i b Hi Hb. destruct i as [|[|[|i]]]; cbn in Hi; try (destruct i; discriminate); inversion Hi; subst b; cbn in Hb; try discriminate;
+          first [change (hword ex13_state (HEAP_BASE + (64 * 1 + 16)) = 0)|change (hword ex13_state (HEAP_BASE + (64 * 1 + 48)) = 0)]; rewrite W; reflexivity.
+  - intros x Hx'. destruct Hx' as (k & Hk & -> & Hhi). replace (X86Sem.HEAP_BASE + 64 * k) with (HEAP_BASE + (64 * k)) by (unfb; lia). rewrite W.
+    cbn [List.length X86MemStoreChain.ex5_store]. unfold min_int, max_int, two63, HEAP_BASE.
+    repeat match goal with |- context [?a =? ?b] => destruct (Z.eqb_spec a b) end; lia.
+  - exists s'. split; [exact ST|]. split; [exact EQ|].
+    destruct (V 0%nat _ eq_refl) as [V0 _]. destruct (V 1%nat _ eq_refl) as [_ V1]. destruct (V 4%nat _ eq_refl) as [V4 _].
+    specialize (V1 ltac:(discriminate)). specialize (O 6%N ltac:(cbn; lia)).
+    split; [|split; [|split]].
+    + etransitivity; [exact V0|]. vm_compute; reflexivity.
+    + etransitivity; [exact V1|]. vm_compute; reflexivity.
+    + etransitivity; [exact V4|]. vm_compute; reflexivity.
+    + etransitivity; [exact O|]. vm_compute. reflexivity.
+Qed.
+Print Assumptions a64_load_example.
 
